@@ -16,7 +16,7 @@ from hypothesis import strategies as st
 from ..core import Machine
 from ..findings import is_open
 
-from raysect.core import Node, Point3D, Vector3D  # noqa: E402
+from raysect.core import Node, Point3D, Vector3D, translate  # noqa: E402
 from raysect.core.workflow import RenderEngine, SerialEngine, MulticoreEngine  # noqa: E402
 from raysect.optical import World  # noqa: E402
 from raysect.optical.observer import (SightLine, FibreOptic, Pixel, TargettedPixel, PowerPipeline0D,  # noqa: E402
@@ -36,7 +36,10 @@ SHARDS = {"quick": 8, "thorough": 16}
 # VERIF_C15_NO_EXCLUSIONS=1 switches every exclusion off (used to validate the proposed patch on a scratch copy).
 _NOEXCL = os.environ.get("VERIF_C15_NO_EXCLUSIONS", "") == "1"
 F_SENS = "C15-specsightline-sensitivity-setter"   # `@sensitivity.setter def names`: sensitivity read-only, names clobbered
-EXCLUSIONS = {F_SENS: {"SpectroscopicSightLineGroup": ["names", "sensitivity"]}}
+F_IRVB = "C15-camera-observe-irvb"                # BolometerCamera.observe() raises for a BolometerIRVB member
+# entries "member:<kind>" exclude a member kind, anything else a broadcast attribute
+EXCLUSIONS = {F_SENS: {"SpectroscopicSightLineGroup": ["names", "sensitivity"]},
+              F_IRVB: {"BolometerCamera": ["member:irvb"]}}
 
 
 def _open(fid):
@@ -116,15 +119,18 @@ GROUPS = {
 GROUP_NAMES = sorted(GROUPS)
 
 
-def _counting(base):
+def _counting(base, really=False):
     def observe(self):
         self.vf_observed = getattr(self, "vf_observed", 0) + 1
+        if really:      # 2-D detector: a real (2 pixel x 1 sample, serial, empty world) observation so that its frame exists
+            base.observe(self)
     return type("Counting" + base.__name__, (base,), {"observe": observe})
 
 
 OBS_BASE = {"sightline": SightLine, "fibreoptic": FibreOptic, "pixel": Pixel, "targettedpixel": TargettedPixel,
-            "spec_sightline": SpectroscopicSightLine, "spec_fibreoptic": SpectroscopicFibreOptic, "foil": BolometerFoil}
-OBS_CLS = {k: _counting(v) for k, v in OBS_BASE.items()}
+            "spec_sightline": SpectroscopicSightLine, "spec_fibreoptic": SpectroscopicFibreOptic, "foil": BolometerFoil,
+            "irvb": BolometerIRVB}
+OBS_CLS = {k: _counting(v, really=(k == "irvb")) for k, v in OBS_BASE.items()}
 OBS_KINDS = sorted(OBS_BASE)
 NON_OBSERVERS = ["node", "sphere", "none"]
 
@@ -217,11 +223,38 @@ def member_args():
 def hist_params(draw):
     gname = draw(st.sampled_from(GROUP_NAMES))
     n0 = draw(st.sampled_from([0, 0, 1, 2, 2, 3, 3, 4]))
-    return {"group": gname, "init": [draw(member_args()) for _ in range(n0)], "excluded": excluded_for(gname)}
+    ctor = {"parent": draw(st.sampled_from([True, True, True, False])), "positional": draw(st.booleans()),
+            "container": draw(st.sampled_from(["list", "tuple"])), "transform": draw(st.booleans())}
+    return {"group": gname, "init": [draw(member_args()) for _ in range(n0)], "excluded": excluded_for(gname), "ctor": ctor}
 
 
 def _assign_args(kinds):
     return lambda: st.fixed_dictionaries({"a": st.integers(0, 59), "kind": st.sampled_from(kinds), "u": _us, "k": _ks})
+
+
+# numeric attributes by storage type (a value written into the wrong attribute of the same type would be accepted silently)
+INT_ATTRS = ["spectral_bins", "spectral_rays", "ray_max_depth", "ray_extinction_min_depth", "pixel_samples", "samples_per_task"]
+FLOAT_ATTRS = ["max_wavelength", "min_wavelength", "ray_extinction_prob", "ray_important_path_weight", "sensitivity",
+               "acceptance_angle", "radius", "x_width", "y_width", "targetted_path_prob"]
+# constructor defaults / internal presets of the raysect observers (and of BolometerFoil)
+MAGIC = {"spectral_bins": [15, 1], "spectral_rays": [1], "max_wavelength": [740.0], "min_wavelength": [375.0],
+         "ray_extinction_prob": [0.01], "ray_max_depth": [500], "ray_extinction_min_depth": [3, 0],
+         "ray_important_path_weight": [0.2], "pixel_samples": [1000], "samples_per_task": [250],
+         "sensitivity": [1.0], "acceptance_angle": [5.0], "radius": [0.001], "x_width": [0.01, 0.0025], "y_width": [0.01, 0.005],
+         "targetted_path_prob": [0.9, 1.0]}
+
+
+def valid_for(attr, v, mm):
+    """inter-attribute constraints of the raysect setters (ranges are respected by construction)."""
+    if attr == "spectral_bins":
+        return v >= max(1, mm["spectral_rays"])
+    if attr == "spectral_rays":
+        return 0 < v <= mm["spectral_bins"]
+    if attr == "max_wavelength":
+        return v > mm["min_wavelength"]
+    if attr == "min_wavelength":
+        return 0 < v < mm["max_wavelength"]
+    return True
 
 
 # ------------------------------------------------------------------------------------------------ the model
@@ -233,17 +266,20 @@ class Hist:
         self.gname = params["group"]
         self.init = params["init"]
         self.excluded = set(params.get("excluded", []))
+        self.ctor = dict({"parent": True, "positional": False, "container": "list", "transform": False}, **params.get("ctor", {}))
         self.cls, self.mtype = GROUPS[self.gname]
         self.is_camera = self.gname == "BolometerCamera"
         self.primary = BolometerFoil if self.is_camera else self.mtype
-        self.world = self.group = self.slit = None
+        self.world = self.group = None
+        self.slits = {}
         self.members = []          # real members, in order
         self.mm = []               # model: one dict per member
         self.pstate = {}           # id(pipeline) -> [pipeline, display_progress, accumulate]
         self.attrs = []
         self.props = {}
         # evidence
-        self.sets, self.wrongs, self.kinds, self.idx, self.lab = set(), set(), set(), set(), set()
+        self.sets, self.wrongs, self.kinds, self.idx, self.lab = set(), set(), set(), set(), set()   # sets: (attr, "scalar"|"seq")
+        self.rej = set()
         self.n_changes = 0
         self.nt_distinct = self.nt_wrong_after = False
         self.cam_observed2 = self.cam_named = self.rejected = False
@@ -263,12 +299,15 @@ class Hist:
                 self.lab.add("excluded_known")
             else:
                 self.attrs.append(n)
+        if any(x.startswith("member:") for x in self.excluded):
+            self.lab.add("excluded_known")
         self.world = World()
+        c = self.ctor
+        parent = self.world if (c["parent"] or self.is_camera) else None     # (a 2-D IRVB member really observes: needs a World)
+        tr = translate(0.5, -0.25, 1.0) if c["transform"] else None
         with ctx.cut("construct"):
             if self.is_camera:
-                self.group = self.cls(parent=self.world, name="camera")
-                self.slit = BolometerSlit("slit", Point3D(0, 0, 0), Vector3D(1, 0, 0), 0.0025, Vector3D(0, 1, 0), 0.005,
-                                          parent=self.group)
+                self.group = self.cls(None, parent, tr, "camera") if c["positional"] else self.cls(parent=parent, transform=tr, name="camera")
                 members = [self._new_member(a, accepted=True) for a in self.init]
                 snaps = [self._snapshot(m) for m in members]
                 for m in members:
@@ -276,7 +315,15 @@ class Hist:
             else:
                 members = [self._new_member(a, accepted=True) for a in self.init]
                 snaps = [self._snapshot(m) for m in members]
-                self.group = self.cls(parent=self.world, name="group", observers=members)
+                given = list(members) if c["container"] == "list" else tuple(members)
+                self.group = self.cls(parent, tr, "group", given) if c["positional"] else \
+                    self.cls(parent=parent, transform=tr, name="group", observers=given)
+                if isinstance(given, list):        # the caller edits its own list afterwards
+                    given.reverse()
+                    del given[1:]
+                self.lab.add("ep:ctor_observers:" + c["container"])
+        self.lab.add("ctor:" + ("positional" if c["positional"] else "keyword") + ("" if parent is not None else ":no_parent")
+                     + (":transform" if c["transform"] else ""))
         self.members, self.mm = list(members), snaps
 
     def close(self):
@@ -285,8 +332,8 @@ class Hist:
                 self.group.parent = None
         except Exception:  # noqa
             pass
-        self.group = self.world = self.slit = None
-        self.members, self.mm, self.pstate = [], [], {}
+        self.group = self.world = None
+        self.members, self.mm, self.pstate, self.slits = [], [], {}, {}
 
     def _new_pipelines(self, u, k):
         out = []
@@ -316,16 +363,27 @@ class Hist:
     def _point(u):
         return Point3D(-5 + 10 * u, -5 + 10 * frac(u * 7.3 + 0.11), -5 + 10 * frac(u * 13.7 + 0.29))
 
+    def _slit(self, i):
+        """up to three slits; several foils share one (slit 0 and 2 belong to the camera / group, slit 1 to the world)."""
+        if i not in self.slits:
+            parent = self.group if (self.is_camera and i != 1 and self.group is not None) else self.world
+            self.slits[i] = BolometerSlit("slit%d" % i, Point3D(0.01 * i, 0, 0), Vector3D(1, 0, 0), 0.0025, Vector3D(0, 1, 0), 0.005,
+                                          parent=parent)
+        return self.slits[i]
+
     def _new_member(self, a, accepted):
         """builds an object of an accepted / rejected kind (my own constructor calls: never a violation)."""
         if accepted:
-            kinds = accepted_kinds(self.gname)
+            kinds = [kk for kk in accepted_kinds(self.gname) if "member:" + kk not in self.excluded]
             exact = [kk for kk in kinds if OBS_BASE[kk] is self.primary]
             others = [kk for kk in kinds if kk not in exact]
             kind = exact[0] if (a["v"] < 5 or not others) else others[a["v"] % len(others)]   # mostly the exact type
         else:
             kinds = rejected_kinds(self.gname)
             kind = kinds[a["v"] % len(kinds)]
+        return self._build(kind, a)
+
+    def _build(self, kind, a):
         name = None if a["name"] < 0 else NAME_POOL[a["name"]]
         u, k = a["u"], a["k"]
         if kind == "node":
@@ -337,11 +395,18 @@ class Hist:
         C = OBS_CLS[kind]
         pipes = self._new_pipelines(u, k) if k % 4 else None
         if kind == "foil":
-            if self.slit is None:
-                self.slit = BolometerSlit("slit", Point3D(0, 0, 0), Vector3D(1, 0, 0), 0.0025, Vector3D(0, 1, 0), 0.005,
-                                          parent=self.world)
+            # most foils sit behind slit 0 (shared), some behind a second / third one
+            slit = self._slit(0 if k < 5 else k - 5)
             return C(name or "foil", Point3D(0.01 * u, 0, -0.08), Vector3D(1, 0, 0), 0.0025, Vector3D(0, 1, 0), 0.005,
-                     self.slit, units="Power" if k % 2 else "Radiance")
+                     slit, units="Power" if k % 2 else "Radiance")
+        if kind == "irvb":
+            m = C(name or "irvb", 0.02, (2, 1), self._slit(0 if k < 6 else 1), translate(0.01 * u, 0, -0.05),
+                  units="power" if k % 2 else "radiance")
+            m.pixel_samples = 1
+            m.render_engine = SerialEngine()
+            for p in m.pipelines:
+                p.display_progress = False
+            return m
         if kind == "targettedpixel":
             return C([Sphere() for _ in range(1 + k % 2)], pipelines=pipes, name=name)
         if kind in ("spec_sightline", "spec_fibreoptic"):
@@ -432,6 +497,11 @@ class Hist:
             cnt = getattr(m, "vf_observed", 0)
             ctx.check(cnt == self.mm[j]["count"], "observe",
                       lambda: "%s: member %d observed %d times, expected %d" % (self.gname, j, cnt, self.mm[j]["count"]))
+        if self.is_camera:
+            with ctx.cut("slits"):
+                sl = g.slits
+            ctx.check(isinstance(sl, list) and all(any(m.slit is s for s in sl) for m in self.members), "slits",
+                      lambda: "camera.slits %r does not hold the slit of every member" % (sl,))
         for attr in self.attrs:
             kind = SPECS[attr].kind
             what = "%s.%s" % (self.gname, attr)
@@ -446,27 +516,44 @@ class Hist:
             ctx.check(isinstance(lst, (list, tuple)) and len(lst) == n and all(self._same(kind, a, b) for a, b in zip(lst, want)),
                       "getter:" + what, lambda: "group.%s returns %s, members (in order) hold %s" % (attr, self._show(lst), self._show(want)))
 
+    _SYNTH_MEMBER = {"v": 0, "name": 5, "u": 0.37, "k": 3}
+
     def finish(self):
         self._ensure()
         ctx = self.ctx
-        # coverage sweep: every broadcast attribute of this class gets at least one valid and one wrong-length assignment
-        # per history (with arguments that are a fixed function of the attribute index), so that the (class, attribute)
-        # coverage demanded by REQUIRED_LABELS does not depend on the luck of the draw
+        # coverage sweep: every broadcast attribute of this class gets at least one valid assignment through each branch of
+        # its setter (scalar, sequence) and one wrong-length assignment per history (with arguments that are a fixed
+        # function of the attribute index), every rejected kind is offered once, and the member list is once assigned as a
+        # list that the caller edits afterwards, followed by an add, a broadcast and an observe - so that the coverage
+        # demanded by REQUIRED_LABELS does not depend on the luck of the draw
         for idx, attr in enumerate(list(self.attrs)):
-            synth = {"a": idx, "kind": ("list", "tuple", "scalar")[idx % 3], "u": [((idx * 7 + j * 3) % 10) / 10.0 + 0.03 for j in range(8)],
+            synth = {"a": idx, "kind": ("list", "tuple", "ndarray")[idx % 3], "u": [((idx * 7 + j * 3) % 10) / 10.0 + 0.03 for j in range(8)],
                      "k": [(idx + 2 * j) % 11 for j in range(8)]}
-            if attr not in self.sets and (self.pre_assign() if hasattr(self, "pre_assign") else True):
+            if (attr, "seq") not in self.sets:
                 self.do_assign(synth)
                 self.invariant()
-            if attr not in self.wrongs and (self.pre_assign_wrong() if hasattr(self, "pre_assign_wrong") else True):
+            if (attr, "scalar") not in self.sets and SPECS[attr].scalar_ok:
+                self.do_assign(dict(synth, kind="scalar"))
+                self.invariant()
+            if attr not in self.wrongs:
                 self.do_assign_wrong(dict(synth, kind="list"))
                 self.invariant()
+        for i, kind in enumerate(rejected_kinds(self.gname)):
+            if kind not in self.rej:
+                self.do_member_add_wrong(dict(self._SYNTH_MEMBER, v=i, k=i))
+                self.invariant()
+        if "tail" not in self.lab:
+            self._tail()
         ctx.label("class:" + self.gname)
         ctx.label(*sorted(self.lab))
-        for a in sorted(self.sets):
+        for a in sorted({a for a, _ in self.sets}):
             ctx.label("set:%s.%s" % (self.gname, a))
+        for a, br in sorted(self.sets):
+            ctx.label("set%s:%s.%s" % (br, self.gname, a))
         for a in sorted(self.wrongs):
             ctx.label("wrong:%s.%s" % (self.gname, a))
+        for kk in sorted(self.rej):
+            ctx.label("reject:%s.%s" % (self.gname, kk))
         ctx.label(*sorted("kind:" + k for k in self.kinds))
         ctx.label(*sorted("index:" + k for k in self.idx))
         ctx.label("size:%d" % len(self.members))
@@ -475,24 +562,24 @@ class Hist:
         else:
             ctx.nt(self.nt_distinct and self.nt_wrong_after)
 
+    def _tail(self):
+        """member list assigned as a LIST (same members, reversed), the caller then edits its list; add, broadcast, observe."""
+        self.do_replace({"perm": [4, 3, 2, 1, 0], "keep": 5, "mode": "perm", "m": dict(self._SYNTH_MEMBER, k=0)})
+        self.invariant()
+        if len(self.members) < 5:
+            self.do_member_add(dict(self._SYNTH_MEMBER, k=2))
+            self.invariant()
+        if "quiet" in self.attrs:
+            self.do_assign({"a": self.attrs.index("quiet"), "kind": "scalar", "u": [0.3] * 8, "k": [5] * 8})
+            self.invariant()
+        self.do_observe(0)
+        self.invariant()
+        self.do_index({"mode": "iter", "i": 0, "s": [None, None, None]})
+        self.lab.add("tail")
+
     # ---------------------------------------------------------------- value construction
-    def _value(self, attr, u, k, mms):
-        """concrete value of `attr`, valid for every member model in `mms` (empty: no receiver)."""
+    def _random_value(self, attr, u, k, mms):
         kind = SPECS[attr].kind
-        if attr == "names":
-            return NAME_POOL[int(u * 8) % 8]
-        if kind == "engine":
-            return ENGINES[k % 3]()
-        if kind == "pipelines":
-            return self._new_pipelines(u, k)
-        if kind == "targets":
-            return [Sphere() for _ in range(1 + k % 3)]
-        if kind == "point":
-            return self._point(u)
-        if kind == "vector":
-            return self._direction(u, k)
-        if kind in ("bool", "ppflag"):
-            return u < 0.5
         if attr == "spectral_bins":
             return max([m["spectral_rays"] for m in mms], default=1) + int(u * 40)
         if attr == "spectral_rays":
@@ -516,23 +603,184 @@ class Hist:
             return 0.01 + 89.99 * (1.0 - u)      # (0.01, 90], 90 included; raysect cone sampler divides by zero for ~0
         if attr in ("radius", "x_width", "y_width"):
             return logu(u, 1e-5, 1.0)
+        if kind in ("bool", "ppflag"):
+            return u < 0.5
         raise KeyError(attr)
 
-    def _container(self, attr, values, kind):
+    @staticmethod
+    def _boundary_value(attr, u, mms):
+        """a value on the edge of what the member setters accept (None: no such edge)."""
+        if attr == "spectral_bins":
+            return max([m["spectral_rays"] for m in mms], default=1)
+        if attr == "spectral_rays":
+            return min([m["spectral_bins"] for m in mms], default=15)
+        if attr == "max_wavelength":
+            return float(np.nextafter(max([m["min_wavelength"] for m in mms], default=375.0), np.inf))
+        if attr == "min_wavelength":
+            return float(np.nextafter(min([m["max_wavelength"] for m in mms], default=740.0), 0.0))
+        if attr in ("ray_extinction_prob", "ray_important_path_weight", "targetted_path_prob"):
+            return 1.0 if u < 0.5 else 0.0
+        if attr in ("ray_max_depth", "ray_extinction_min_depth"):
+            return 0
+        if attr in ("pixel_samples", "samples_per_task"):
+            return 1
+        if attr == "acceptance_angle":
+            return 90.0
+        return None
+
+    @staticmethod
+    def _integral_value(attr, u, mms):
+        """a Python int that is a valid value of a float attribute (None: none exists)."""
+        if attr == "sensitivity":
+            return 1 + int(u * 999)
+        if attr in ("radius", "x_width", "y_width"):
+            return 1 + int(u * 3)
+        if attr == "acceptance_angle":
+            return min(90, 1 + int(u * 90))
+        if attr in ("ray_extinction_prob", "ray_important_path_weight", "targetted_path_prob"):
+            return int(u < 0.5)
+        if attr == "max_wavelength":
+            return int(math.floor(max([m["min_wavelength"] for m in mms], default=375.0))) + 1 + int(u * 300)
+        if attr == "min_wavelength":
+            top = int(math.ceil(min([m["max_wavelength"] for m in mms], default=740.0))) - 1     # < max
+            return 1 + int(u * top) if top >= 1 and 1 + int(u * top) <= top else (1 if top >= 1 else None)
+        return None
+
+    def _value(self, attr, u, k, mms, integral=False, others=True):
+        """concrete value of `attr`, valid for every member model in `mms` (empty: no receiver).
+        k selects the class of value: 2 = constructor default / preset, 3 = boundary of the accepted range, 4 = the
+        receiver's current value (single receiver), otherwise a random value that differs from the receiver's current value
+        of this and of every other attribute of the same storage type."""
+        kind = SPECS[attr].kind
+        if attr == "names":
+            return NAME_POOL[int(u * 8) % 8]
+        if kind == "engine":
+            return ENGINES[k % 3]()
+        if kind == "pipelines":
+            return self._new_pipelines(u, k)
+        if kind == "targets":
+            return [Sphere() for _ in range(1 + k % 3)]
+        if kind == "point":
+            return self._point(u)
+        if kind == "vector":
+            return self._direction(u, k)
+        ok = lambda x: x is not None and all(valid_for(attr, x, m) for m in mms)   # noqa: E731
+        if kind == "float" and integral:
+            v = self._integral_value(attr, u, mms)
+            if ok(v):
+                return v
+        if k == 2 and attr in MAGIC:
+            v = MAGIC[attr][int(u * 8) % len(MAGIC[attr])]
+            if ok(v):
+                self.lab.add("value:default")
+                return v
+        if k == 3:
+            v = self._boundary_value(attr, u, mms)
+            if ok(v):
+                self.lab.add("value:boundary")
+                return v
+        if k == 4 and len(mms) == 1 and attr in mms[0]:
+            self.lab.add("value:current")
+            return mms[0][attr]
+        v = self._random_value(attr, u, k, mms)
+        if not mms or not others:
+            return v
+        if kind in ("bool", "ppflag"):
+            if kind == "bool" and attr in mms[0]:
+                return not mms[0][attr]           # the write must be observable on the attribute it is meant for
+            return v
+        pool = INT_ATTRS if kind == "int" else FLOAT_ATTRS
+        taken = {m[a] for m in mms for a in pool if a in m}
+        for step in range(1, 40):
+            if v not in taken:
+                break
+            cand = (v + step, v - step) if kind == "int" else (v * (1 + 1e-3 * step), v * (1 - 1e-3 * step))
+            for c in cand:
+                in_range = (c >= (0 if "depth" in attr else 1)) if kind == "int" else \
+                    (0 < c and (c <= 1 if "prob" in attr or "weight" in attr else True) and (c <= 90 if attr == "acceptance_angle" else True))
+                if c not in taken and in_range and ok(c):
+                    return c
+        return v
+
+    def _elements(self, attr, u, k, L, form):
+        """the L element values of a sequence for `attr` (element j is valid for member j)."""
+        n = len(self.mm)
+        return [self._value(attr, u[j], k[j], [self.mm[j]] if j < n else [], integral=(form == "integral")) for j in range(L)]
+
+    def _container(self, attr, values, kind, form):
+        """-> (container handed to the setter, the Python values the members must then hold)"""
         sk = SPECS[attr].kind
         if kind == "tuple":
             if sk in ("pipelines", "targets"):
-                return tuple(tuple(v) if i % 2 else v for i, v in enumerate(values))
-            return tuple(values)
+                return tuple(tuple(v) if i % 2 else v for i, v in enumerate(values)), values
+            return tuple(values), values
         if kind == "ndarray":
-            dt = {"int": np.int64, "float": np.float64, "bool": np.bool_, "ppflag": np.bool_}[sk]
-            return np.array(values, dtype=dt)
-        return list(values)
+            if sk == "float":
+                if form == "integral" and all(isinstance(v, int) for v in values):
+                    arr = np.array(values, dtype=np.int64)
+                elif form == "float32":
+                    arr = np.array(values, dtype=np.float32)
+                    n = len(self.mm)
+                    if not all(valid_for(attr, x.item(), self.mm[j]) and (attr != "acceptance_angle" or 0 < x.item() <= 90)
+                               for j, x in enumerate(arr) if j < n):
+                        arr = np.array(values, dtype=np.float64)
+                else:
+                    arr = np.array(values, dtype=np.float64)
+            elif sk == "int":
+                arr = np.array(values, dtype=np.int32 if form == "float32" else np.int64)
+            else:
+                arr = np.array(values, dtype=np.int8 if form == "integral" else np.bool_)
+            if form == "strided":
+                big = np.zeros(2 * len(values) + 1, dtype=arr.dtype)
+                big[::2][:len(values)] = arr
+                arr = big[::2][:len(values)]
+                self.lab.add("form:strided")
+            self.lab.add("form:dtype:%s" % arr.dtype)
+            return arr, [x.item() for x in arr]
+        return list(values), values
 
     def _seq_kind(self, attr, kind):
         if kind == "ndarray" and not (SPECS[attr].numeric and setter_names_ndarray(self.props.get(attr))):
             return "tuple"
         return kind
+
+    @staticmethod
+    def _freeze(seq):
+        if isinstance(seq, np.ndarray):
+            return seq.copy()
+        return [list(x) if isinstance(x, (list, tuple)) else x for x in seq]
+
+    @staticmethod
+    def _unchanged(seq, snap):
+        if isinstance(seq, np.ndarray):
+            return seq.dtype == snap.dtype and np.array_equal(seq, snap)
+        if len(seq) != len(snap):
+            return False
+        for x, y in zip(seq, snap):
+            if isinstance(x, (list, tuple)):
+                if len(x) != len(y) or any(a is not b for a, b in zip(x, y)):
+                    return False
+            elif isinstance(x, (int, float, bool, str)) or x is None:
+                if x != y or type(x) is not type(y):
+                    return False
+            elif x is not y:
+                return False
+        return True
+
+    @staticmethod
+    def _scramble(seq):
+        """the caller re-uses its own container after the call"""
+        if isinstance(seq, np.ndarray):
+            if seq.size:
+                seq[...] = seq[0]
+                seq[...] = seq + 1 if seq.dtype != np.bool_ else ~seq
+        elif isinstance(seq, (list, tuple)):
+            for x in seq:
+                if isinstance(x, list):
+                    del x[:]
+            if isinstance(seq, list):
+                seq.reverse()
+                del seq[1:]
 
     def _apply(self, j, attr, v):
         """the model's version of `member_j.attr = v`"""
@@ -563,33 +811,54 @@ class Hist:
     def do_member_add(self, a):
         self._ensure()
         ctx = self.ctx
+        if len(self.members) >= 5:
+            return
         m = self._new_member(a, accepted=True)
         snap = self._snapshot(m)
+        kw = a["k"] in (2, 3)          # keyword / positional call
         with ctx.cut("add"):
             if self.is_camera:
-                self.group.add_foil_detector(m)
+                self.group.add_foil_detector(foil_detector=m) if kw else self.group.add_foil_detector(m)
+                self.lab.add("ep:add_foil_detector")
             elif hasattr(self.group, "add_sight_line") and a["k"] % 2:
-                self.group.add_sight_line(m)
+                self.group.add_sight_line(sight_line=m) if kw else self.group.add_sight_line(m)
+                self.lab.add("ep:add_sight_line")
             else:
-                self.group.add_observer(m)
+                self.group.add_observer(observer=m) if kw else self.group.add_observer(m)
+                self.lab.add("ep:add_observer")
         self.members.append(m)
         self.mm.append(snap)
         if type(m).__mro__[1] is not self.primary:
             self.lab.add("add:subclass")
+        if type(m).__mro__[1] is BolometerIRVB:
+            self.lab.add("member:irvb")
+        if self.is_camera and sum(1 for x in self.members if x.slit is m.slit) >= 2:
+            self.lab.add("shared_slit")
 
     def do_member_add_wrong(self, a):
         self._ensure()
         ctx, g = self.ctx, self.group
-        obj = self._new_member(a, accepted=False)
+        kinds = rejected_kinds(self.gname)
+        kind = kinds[a["v"] % len(kinds)]
+        obj = self._build(kind, a)
+        if not self.is_camera and a["k"] % 3 == 2:
+            # offered through the constructor of a second group of the same class, after a valid observer
+            good = self._new_member(dict(a, v=0), accepted=True)
+            seq = [good, obj] if a["k"] % 2 else (good, obj)
+            ctx.raises((ValueError, TypeError), "ctor-wrong-type", lambda: self.cls(observers=seq))
+            self.lab.add("ep:ctor_wrong")
         fn = g.add_foil_detector if self.is_camera else g.add_observer
         ctx.raises((ValueError, TypeError), "add-wrong-type", fn, obj)
         if isinstance(obj, Node):
             ctx.check(obj.parent is not g, "add-wrong-type", lambda: "rejected %r became a child of the group" % (obj,))
         self.rejected = True
+        self.rej.add(kind)
         self.lab.add("add_wrong")
 
     def pre_assign(self):
         return self.group is None or bool(self.attrs)
+
+    _FORMS = ["plain", "plain", "integral", "float32", "strided", "plain", "integral", "float32"]
 
     def do_assign(self, a):
         self._ensure()
@@ -605,29 +874,49 @@ class Hist:
         u, k = a["u"], a["k"]
         what = "%s.%s" % (self.gname, attr)
         if kind == "scalar":
-            v = self._value(attr, u[0], k[0], self.mm)
+            form = k[2] % 4            # 0, 3: native Python value, 1: numpy scalar, 2: Python int for a float attribute
+            v = self._value(attr, u[0], k[0], self.mm, integral=(form == 2))
+            model_v = v
             if spec.kind == "targets" and k[1] % 2:
                 v = tuple(v)
+            if form == 1 and spec.kind in ("int", "float", "bool", "ppflag"):
+                v = {"int": np.int64, "float": np.float64}.get(spec.kind, np.bool_)(v)
+                self.lab.add("form:numpy_scalar")
+            if spec.kind == "float" and isinstance(v, int):
+                self.lab.add("form:int_for_float")
             with ctx.cut("assign-scalar:" + what):
                 setattr(g, attr, v)
             for j in range(n):
-                self._apply(j, attr, v)
+                self._apply(j, attr, model_v)
+            if spec.kind == "targets" and isinstance(v, list):
+                del v[:]               # the caller empties its list afterwards
+            self.sets.add((attr, "scalar"))
         else:
-            vals = [self._value(attr, u[j], k[j], [self.mm[j]]) for j in range(n)]
-            seq = self._container(attr, vals, kind)
-            if kind == "ndarray":
-                vals = [x.item() for x in seq]
+            form = self._FORMS[k[6] % 8]
+            vals = self._elements(attr, u, k, n, form)
+            seq, vals = self._container(attr, vals, kind, form)
+            if spec.kind == "float" and any(isinstance(x, int) for x in vals):
+                self.lab.add("form:int_for_float")
+            snap = self._freeze(seq)
             with ctx.cut("assign-%s:%s" % (kind, what)):
                 setattr(g, attr, seq)
+                if k[5] == 6:          # the same container object is handed over a second time
+                    setattr(g, attr, seq)
+                    self.lab.add("reuse:container_twice")
+            ctx.check(self._unchanged(seq, snap), "caller-data:" + what,
+                      lambda: "the %s passed to group.%s was modified by the setter: %s" % (kind, attr, self._show(seq)))
             for j in range(n):
                 self._apply(j, attr, vals[j])
+            self._scramble(seq)        # the invariant that follows must still see the assigned values
             if n >= 2:
                 want = [self._expected(j, attr) for j in range(n)]
                 if any(not self._same(spec.kind, _as_got(spec.kind, want[j]), want[0]) for j in range(1, n)):
                     self.nt_distinct = True
+                elif spec.kind in ("int", "float", "bool", "str"):
+                    self.lab.add("value:all_equal")
+            self.sets.add((attr, "seq"))
         if n >= 1:
             self.n_changes += 1
-        self.sets.add(attr)
         self.kinds.add(kind)
 
     pre_assign_wrong = pre_assign
@@ -642,10 +931,14 @@ class Hist:
         L = cands[a["k"][7] % len(cands)]
         kind = self._seq_kind(attr, a["kind"])
         u, k = a["u"], a["k"]
-        vals = [self._value(attr, u[j], k[j], [self.mm[j]] if j < n else []) for j in range(L)]
-        seq = self._container(attr, vals, kind)
+        form = self._FORMS[k[6] % 8]
+        vals = self._elements(attr, u, k, L, form)
+        seq, _ = self._container(attr, vals, kind, form)
+        snap = self._freeze(seq)
         what = "%s.%s" % (self.gname, attr)
         ctx.raises((ValueError,), "wrong-length:" + what, setattr, g, attr, seq)
+        ctx.check(self._unchanged(seq, snap), "caller-data:" + what,
+                  lambda: "the %s passed to group.%s was modified by the rejecting setter: %s" % (kind, attr, self._show(seq)))
         # the model is unchanged: the invariant that follows verifies that nothing was modified
         self.wrongs.add(attr)
         self.kinds.add("wrong:" + kind)
@@ -677,9 +970,10 @@ class Hist:
         new_members = [self.members[i] for i in order]
         new_mm = [self.mm[i] for i in order]
         attr = "foil_detectors" if self.is_camera else ("sight_lines" if hasattr(g, "sight_lines") and a["m"]["k"] % 2 else "observers")
+        as_list = self.is_camera or a["m"]["k"] % 4 < 2
         if a["mode"] == "wrong":
             bad = new_members + [self._new_member(a["m"], accepted=False)]
-            seq = bad if (self.is_camera or a["m"]["k"] % 4 < 2) else tuple(bad)
+            seq = bad if as_list else tuple(bad)
             ctx.raises((ValueError, TypeError), "replace-wrong-type", setattr, g, attr, seq)
             self.rejected = True
             self.lab.add("replace_wrong")
@@ -688,17 +982,36 @@ class Hist:
             m = self._new_member(a["m"], accepted=True)
             new_mm.append(self._snapshot(m))
             new_members.append(m)
-        seq = list(new_members) if (self.is_camera or a["m"]["k"] % 4 < 2) else tuple(new_members)
+        seq = list(new_members) if as_list else tuple(new_members)
         with ctx.cut("replace-members"):
             setattr(g, attr, seq)
+        ctx.check(len(seq) == len(new_members) and all(x is y for x, y in zip(seq, new_members)), "caller-data:" + attr,
+                  lambda: "the container assigned to group.%s was modified by the setter" % attr)
         self.members, self.mm = new_members, new_mm
+        if isinstance(seq, list):
+            # the caller goes on using its own list: the group must hold its own container
+            seq.append(self._build(OBS_KINDS[0] if not self.is_camera else "node", dict(a["m"], name=-1)))
+            seq.reverse()
+            del seq[2:]
+            self.lab.add("caller_edits_member_list")
         self.lab.add("replace")
+        self.lab.add("ep:%s_set:%s" % (attr, "list" if as_list else "tuple"))
 
     def do_index(self, a):
         self._ensure()
         ctx, g, n = self.ctx, self.group, len(self.members)
         mode = a["mode"]
-        if mode == "int" and n:
+        if mode == "iter":
+            with ctx.cut("iterate"):
+                got = list(g)           # BolometerCamera.__iter__ / sequence protocol of Observer0DGroup (used by in-repo tests)
+            ctx.check(len(got) == n and all(x is y for x, y in zip(got, self.members)), "iterate",
+                      lambda: "iterating the group yields %s, members are %s" % ([getattr(x, "name", x) for x in got], [m.name for m in self.members]))
+            if hasattr(g, "sight_lines"):
+                with ctx.cut("sight_lines"):
+                    sl = g.sight_lines
+                ctx.check(len(sl) == n and all(x is y for x, y in zip(sl, self.members)), "sight_lines", "group.sight_lines differs from the members")
+            self.idx.add("iter")
+        elif mode == "int" and n:
             j = a["i"] % (2 * n) - n          # -n .. n-1
             with ctx.cut("index:int"):
                 got = g[j]
@@ -757,6 +1070,74 @@ class Hist:
                 self.cam_observed2 = True
         self.lab.add("observe" if n else "observe_empty")
 
+    def do_reread(self, a):
+        """every group-level getter is read, the returned list is edited by the caller; the invariant that follows reads
+        everything again (no aliasing between what a getter returns and the group's / members' state)."""
+        self._ensure()
+        ctx, g = self.ctx, self.group
+        names = list(self.attrs) + (["foil_detectors", "slits"] if self.is_camera else [])
+        for attr in names:
+            with ctx.cut("getter:%s.%s" % (self.gname, attr)):
+                first = getattr(g, attr)
+                second = getattr(g, attr)
+            if isinstance(first, list):
+                ctx.check(first is not second, "getter-alias:%s.%s" % (self.gname, attr), "two reads return the same list object")
+                first.append(None)
+                first.reverse()
+                for x in second:
+                    if isinstance(x, list):
+                        x.append(None)
+        self.lab.add("reread")
+
+    def pre_connect(self):
+        return self.group is None or not self.is_camera
+
+    def do_connect(self, a):
+        """connect_pipelines(): every member gets its own new pipelines of the given classes (documented); the model takes the
+        new pipeline objects from the members, the invariant then checks group.pipelines / display_progress / accumulate."""
+        self._ensure()
+        if self.is_camera or "pipelines" not in self.attrs:
+            return
+        ctx, g, n = self.ctx, self.group, len(self.members)
+        classes = [PIPELINE_CLASSES[(a["k"][i] + i) % 4] for i in range(1 + a["k"][7] % 3)]
+        names = [None if a["k"][i] % 2 else "p%d" % i for i in range(len(classes))]
+        spec_sig = isinstance(g, (SpectroscopicSightLineGroup, SpectroscopicFibreOpticGroup))
+        suppress = True
+        with ctx.cut("connect_pipelines"):
+            if spec_sig:
+                if a["k"][6] == 0:
+                    classes, names = [SpectralRadiancePipeline0D], [None]
+                    g.connect_pipelines()
+                else:
+                    g.connect_pipelines([(c, nm, None) for c, nm in zip(classes, names)])
+                self.lab.add("ep:connect_pipelines:spectroscopic")
+            else:
+                suppress = a["k"][6] % 2 == 0
+                kws = [dict() if nm is None else {"name": nm} for nm in names]
+                if a["k"][5] % 3 == 0 and all(nm is None for nm in names):
+                    g.connect_pipelines(classes) if suppress else g.connect_pipelines(classes, suppress_display_progress=False)
+                elif a["k"][5] % 3 == 1:
+                    g.connect_pipelines(pipeline_classes=classes, keywords_list=kws, suppress_display_progress=suppress)
+                else:
+                    g.connect_pipelines(classes, kws, suppress)
+                self.lab.add("ep:connect_pipelines:base")
+        seen = set()
+        for j, m in enumerate(self.members):
+            with ctx.cut("connect_pipelines:read"):
+                pl = tuple(m.pipelines)
+            ctx.check(len(pl) == len(classes) and all(type(p) is c for p, c in zip(pl, classes)), "connect_pipelines",
+                      lambda: "member %d has pipelines %s, requested classes %s" % (j, [type(p).__name__ for p in pl], [c.__name__ for c in classes]))
+            for p, nm in zip(pl, names):
+                ctx.check(id(p) not in self.pstate and id(p) not in seen, "connect_pipelines", "a pipeline object is shared or re-used")
+                seen.add(id(p))
+                ctx.check(nm is None or p.name == nm, "connect_pipelines", lambda: "pipeline name %r, requested %r" % (p.name, nm))
+                if isinstance(p, SpectralPowerPipeline0D) and (spec_sig or suppress):
+                    ctx.check(p.display_progress is False, "connect_pipelines", "display_progress not suppressed")
+                if spec_sig:
+                    ctx.check(p.accumulate is False, "connect_pipelines", "spectroscopic groups connect non-accumulating pipelines")
+            self.mm[j]["pipelines"] = pl
+            self._register(pl)
+
 
 def _as_got(kind, want):
     """turn a model value into something Hist._same accepts on its `got` side (points are compared as objects)."""
@@ -778,10 +1159,12 @@ Hist.OPS = {
     "rename": lambda: st.tuples(st.integers(0, 4), st.integers(0, 7)),
     "replace": lambda: st.fixed_dictionaries({"perm": st.lists(st.integers(0, 4), min_size=0, max_size=6), "keep": st.integers(0, 5),
                                               "mode": st.sampled_from(["perm", "new", "new", "wrong"]), "m": member_args()}),
-    "index": lambda: st.fixed_dictionaries({"mode": st.sampled_from(["int", "oob", "slice", "name", "name"]), "i": st.integers(0, 63),
+    "index": lambda: st.fixed_dictionaries({"mode": st.sampled_from(["int", "oob", "slice", "name", "name", "iter"]), "i": st.integers(0, 63),
                                             "s": st.tuples(st.one_of(st.none(), st.integers(-6, 6)), st.one_of(st.none(), st.integers(-6, 6)),
                                                            st.one_of(st.none(), st.integers(-3, 3)))}),
     "observe": lambda: st.just(0),
+    "reread": lambda: st.just(0),
+    "connect": lambda: st.fixed_dictionaries({"k": _ks}),
 }
 for _alias, _target in (("assign_b", "assign"), ("assign_c", "assign"), ("assign_d", "assign"),
                         ("assign_wrong_b", "assign_wrong")):
@@ -797,18 +1180,36 @@ def _required():
         for a in DOCUMENTED[g]:
             if a not in ex:
                 out.append("hist:set:%s.%s" % (g, a))
+                out.append("hist:setseq:%s.%s" % (g, a))
+                if SPECS[a].scalar_ok:
+                    out.append("hist:setscalar:%s.%s" % (g, a))
                 out.append("hist:wrong:%s.%s" % (g, a))
+        for kk in rejected_kinds(g):
+            out.append("hist:reject:%s.%s" % (g, kk))
     out += ["hist:kind:scalar", "hist:kind:list", "hist:kind:tuple", "hist:kind:ndarray",
             "hist:kind:wrong:list", "hist:kind:wrong:tuple", "hist:kind:wrong:ndarray",
             "hist:wrong_len:0", "hist:wrong_len:n-1", "hist:wrong_len:n+1",
             "hist:index:int", "hist:index:oob", "hist:index:slice", "hist:index:name_unique", "hist:index:name_missing",
-            "hist:index:name_dup", "hist:add_wrong", "hist:add:subclass", "hist:replace", "hist:replace_wrong",
-            "hist:rename", "hist:observe", "hist:size:0", "hist:size:5"]
+            "hist:index:name_dup", "hist:index:iter", "hist:add_wrong", "hist:add:subclass", "hist:replace", "hist:replace_wrong",
+            "hist:rename", "hist:observe", "hist:size:0", "hist:size:5",
+            # input forms / magic values / re-use / caller-owned data
+            "hist:form:dtype:float64", "hist:form:dtype:float32", "hist:form:dtype:int64", "hist:form:dtype:int32",
+            "hist:form:dtype:bool", "hist:form:dtype:int8", "hist:form:strided", "hist:form:numpy_scalar", "hist:form:int_for_float",
+            "hist:value:default", "hist:value:boundary", "hist:value:current", "hist:value:all_equal",
+            "hist:reuse:container_twice", "hist:reread", "hist:caller_edits_member_list", "hist:tail", "hist:shared_slit",
+            "hist:ctor:keyword", "hist:ctor:positional", "hist:ctor:keyword:no_parent", "hist:ctor:positional:transform",
+            # entry points of the anchored files
+            "hist:ep:add_observer", "hist:ep:add_sight_line", "hist:ep:add_foil_detector", "hist:ep:ctor_observers:list",
+            "hist:ep:ctor_observers:tuple", "hist:ep:ctor_wrong", "hist:ep:observers_set:list", "hist:ep:observers_set:tuple",
+            "hist:ep:sight_lines_set:list", "hist:ep:sight_lines_set:tuple", "hist:ep:foil_detectors_set:list",
+            "hist:ep:connect_pipelines:base", "hist:ep:connect_pipelines:spectroscopic"]
+    if "member:irvb" not in excluded_for("BolometerCamera"):
+        out.append("hist:member:irvb")
     return out
 
 
 REQUIRED_LABELS = _required()
 
 SUBCHECKS = {
-    "hist": Machine(Hist, quick=3200, thorough=32000, steps=(20, 30), params=hist_params),
+    "hist": Machine(Hist, quick=2000, thorough=20000, steps=(20, 30), params=hist_params),
 }
